@@ -744,6 +744,10 @@ def cases_for(tier, seed):
         (["=", ["f", "?x"], ["f", "?x"]], "equality"),
         (["<=", ["+", ["fuel-cost", "?x"], ["fuelcost", "?x"]], "4"], "inequality"),
         (["<=", ["-", ["a", "b"], ["ab"]], "0"], "inequality"),
+        # round 23: third and fourth powers of one fluent in a denominator (a reciprocal power clamped at two)
+        (["<=", ["/", ["/", ["/", ["g"], ["f", "?x"]], ["f", "?x"]], ["f", "?x"]], "1"], "inequality"),
+        (["<", ["/", "2", ["*", ["*", ["f", "?x"], ["f", "?x"]], ["*", ["f", "?x"], ["f", "?x"]]]], ["g"]], "inequality"),
+        (["/", "1", ["*", ["f", "?x"], ["*", ["f", "?x"], ["f", "?x"]]]], "expression"),
         # a quotient by a SUM (a denominator that is no monomial)
         (["<=", ["/", ["f", "?x"], ["+", ["g"], "1"]], "2"], "inequality"),
         ([">=", ["/", ["*", "2", ["f", "?x"]], ["+", ["g"], ["load_limit", "?x"]]], ["fuel-cost", "?x"]], "inequality"),
